@@ -28,6 +28,8 @@ func init() {
 			"struct fields, slice/array elements and map values, and by identity-set disjointness from every input (freshness: pointers, maps incl. empty non-nil ones, slice backing arrays with cap>0, interface-held ones included). " +
 			"Every node also has exported dials:\"-\" fields (Skip *Node, SkipM map, SkipS slice, SkipAny any) populated like any other edge: sources cannot set them, defaults and nested nodes carry them through every copy, and they are judged like any other location. " +
 			"Interface payloads include overlapping windows of one backing array ([]*Node views Backs[i][lo:hi] and []any views: same start/different length, different start, same header twice); deep equality is judged for them, what their copies share is only counted. " +
+			"Interface payloads also include structs held by value that have non-zero unexported fields (time.Time with and without a *Location, a harness struct with private fields and an exported reference); they must come out reflect.DeepEqual, and the monitor compares their unexported scalar fields itself (key unexported-field-lost:<type>). " +
+			"In path (b) each source hands its value over in one of three forms: pointer to the pointerified struct, addressable struct value, non-addressable struct value (reflect.ValueOf(v.Interface())); freshness is judged against every value handed over (key suffix :shared-with-non-addressable-source-value). " +
 			"Empty non-nil maps and zero-length slices with spare capacity are generated in every position (struct field, map value, []any element, interface payload). " +
 			"A case is distinct and non-trivial when its judged graph contains a reference cycle or a pointer/map identity referenced from >=2 locations; signature = path + entry/scenario + plan JSON. " +
 			"Not generated (kept to the fixed corpus or out of scope): a []any that reaches itself without passing a pointer or map; two layers that both set Any with a pointer/struct/scalar payload. " +
@@ -153,14 +155,14 @@ func c03RunDeepCopy(w *fw.Worker, i int, p *c03Plan, entry int, fixedName string
 		c03Viol(w, i, "wrong-result-type:deepcopy", fmt.Sprintf("VerifDeepCopy(%s) returned %v", inV.Type(), out), map[string]any{"plan": p, "entry": c03EntryNames[entry], "fixed": fixedName})
 		return
 	}
-	c03Judge(w, i, "deepcopy", expV, out, []reflect.Value{inV}, exp, map[string]any{"plan": p, "entry": c03EntryNames[entry], "fixed": fixedName},
+	c03Judge(w, i, "deepcopy", expV, out, []c03Input{{v: inV}}, exp, map[string]any{"plan": p, "entry": c03EntryNames[entry], "fixed": fixedName},
 		"a|"+c03EntryNames[entry]+"|"+c03JSON(p))
 }
 
 // c03Judge applies the three oracles to one result. exp is the harness-built
 // expectation (twin of the input), out what dials produced, ins every value
 // that was handed to dials.
-func c03Judge(w *fw.Worker, i int, where string, exp, out reflect.Value, ins []reflect.Value, expBuilt *c03Built, witness map[string]any, sig string) bool {
+func c03Judge(w *fw.Worker, i int, where string, exp, out reflect.Value, ins []c03Input, expBuilt *c03Built, witness map[string]any, sig string) bool {
 	ok := true
 	// (1) deep equality, by the standard library
 	if !reflect.DeepEqual(exp.Interface(), out.Interface()) {
@@ -182,6 +184,7 @@ func c03Judge(w *fw.Worker, i int, where string, exp, out reflect.Value, ins []r
 	w.Count("held_refs_measured", iso.heldMeasured)
 	w.Count("held_identity_kept", iso.heldKept)
 	w.Count("held_identity_lost", iso.heldLost)
+	w.Count("unexported_fields_compared", iso.unexportedCompared)
 	w.Count("interior_pointers_measured", iso.interiorMeasured)
 	w.Count("interior_pointer_identity_lost", iso.interiorLost)
 	if iso.err != nil {
@@ -203,7 +206,11 @@ func c03Judge(w *fw.Worker, i int, where string, exp, out reflect.Value, ins []r
 	var iws []*c03Walk
 	for _, in := range ins {
 		iw := newC03Walk()
-		iw.walk(in, false, false)
+		iw.tag = in.tag
+		iw.walk(in.v, false, false)
+		if in.tag != "" {
+			w.Count("inputs_"+strings.ReplaceAll(in.tag, "-", "_"), 1)
+		}
 		iws = append(iws, iw)
 	}
 	hits := c03NotFresh(ow, iws...)
@@ -214,7 +221,11 @@ func c03Judge(w *fw.Worker, i int, where string, exp, out reflect.Value, ins []r
 		for k, v := range witness {
 			wit[k] = v
 		}
-		c03Viol(w, i, "not-fresh:"+hit.Label+":"+where, "result is not fresh: "+hit.Detail, wit)
+		key := "not-fresh:" + hit.Label + ":" + where
+		if hit.Tag != "" {
+			key += ":shared-with-" + hit.Tag
+		}
+		c03Viol(w, i, key, "result is not fresh: "+hit.Detail, wit)
 		ok = false
 	}
 	// evidence about the judged graph (the expectation is isomorphic to the input)
@@ -261,6 +272,9 @@ type c03SrcPlan struct {
 	Plan *c03Plan `json:"plan"`
 	Set  []string `json:"set"` // root fields this source sets (nil-valued ones stay unset)
 	Ptr  bool     `json:"ptr"` // hand over a pointer to the pointerified struct
+	// NoAddr (when !Ptr): hand over a NON-addressable struct value
+	// (reflect.ValueOf(v.Interface())) instead of an addressable one.
+	NoAddr bool `json:"noaddr,omitempty"`
 }
 
 type c03Scenario struct {
@@ -271,7 +285,10 @@ type c03Scenario struct {
 }
 
 func c03GenSrc(r *fw.Rand, maxNodes int, anyAllowed bool) c03SrcPlan {
-	s := c03SrcPlan{Plan: c03GenPlan(r, "B", c03GenOpts{MaxNodes: maxNodes}), Ptr: r.Bool()}
+	s := c03SrcPlan{Plan: c03GenPlan(r, "B", c03GenOpts{MaxNodes: maxNodes}), Ptr: r.Intn(3) == 0}
+	if !s.Ptr {
+		s.NoAddr = r.Bool()
+	}
 	for _, f := range c03BFields {
 		if f == "Any" && !anyAllowed {
 			continue
@@ -365,7 +382,7 @@ func c03GenScenario(r *fw.Rand, maxNodes int) *c03Scenario {
 type c03Source struct {
 	sp    *c03SrcPlan
 	built *c03Built
-	given []reflect.Value // every value handed to dials (for the freshness oracle)
+	given []c03Input // every value handed to dials (for the freshness oracle)
 	err   error
 }
 
@@ -403,7 +420,26 @@ func c03SourceValue(t reflect.Type, sp *c03SrcPlan, b *c03Built) (reflect.Value,
 	if sp.Ptr {
 		return pv, nil
 	}
+	if sp.NoAddr {
+		// a plain copy of the struct header: shares every map, slice,
+		// pointer and interface payload with v, but is not addressable
+		return reflect.ValueOf(v.Interface()), nil
+	}
 	return v, nil
+}
+
+// c03Input is a value that was handed to dials, with a tag naming its form
+// when that matters for the violation key.
+type c03Input struct {
+	v   reflect.Value
+	tag string
+}
+
+func c03GivenInput(sp *c03SrcPlan, v reflect.Value) c03Input {
+	if !sp.Ptr && sp.NoAddr {
+		return c03Input{v: v, tag: "non-addressable-source-value"}
+	}
+	return c03Input{v: v}
 }
 
 func (s *c03Source) Value(_ context.Context, t *dials.Type) (reflect.Value, error) {
@@ -413,7 +449,7 @@ func (s *c03Source) Value(_ context.Context, t *dials.Type) (reflect.Value, erro
 		s.err = err
 		return reflect.Value{}, err
 	}
-	s.given = append(s.given, v)
+	s.given = append(s.given, c03GivenInput(s.sp, v))
 	return v, nil
 }
 
@@ -494,8 +530,8 @@ func c03RunScenario(w *fw.Worker, i int, sc *c03Scenario, fixedName string) {
 		c03Viol(w, i, "config-error", "dials.Config returned an error for a well-formed graph: "+err.Error(), witness)
 		return
 	}
-	inputs := func() []reflect.Value {
-		ins := []reflect.Value{def.root()}
+	inputs := func() []c03Input {
+		ins := []c03Input{{v: def.root()}}
 		for _, f := range fakes {
 			ins = append(ins, f.given...)
 		}
@@ -524,7 +560,7 @@ func c03RunScenario(w *fw.Worker, i int, sc *c03Scenario, fixedName string) {
 				c03Viol(w, i, "harness:source-value", verr.Error(), witness)
 				break
 			}
-			watcher.given = append(watcher.given, v)
+			watcher.given = append(watcher.given, c03GivenInput(up, v))
 			if rerr := watcher.args.BlockingReportNewValue(ctx, v); rerr != nil {
 				c03Viol(w, i, "restack-error", "BlockingReportNewValue returned an error for a well-formed graph: "+rerr.Error(), witness)
 				break
